@@ -79,19 +79,22 @@ DoCut(r, from, to) ==
                 !.seq  = SubSeq(r.seq, f + 1, t),
                 !.qual = SubSeq(r.qual, f + 1, t)]
 
-(* everything but the cut *)
-EditAttrs(r, E) ==
+(* everything but the cut and the -S edits: the record the -S expressions are evaluated on *)
+PreSet(r, E) ==
   LET r1 == IF Of(E, "clear") # {} THEN DoClear(r) ELSE r
       r2 == IF Of(E, "setid") # {} THEN DoSetId(r1, (CHOOSE e \in Of(E, "setid") : TRUE).re) ELSE r1
       r3 == DoDelete(r2, KeysOf(E, "del"))
       r4 == IF Of(E, "keep") # {} THEN DoKeep(r3, KeysOf(E, "keep")) ELSE r3
       r5 == DoRename(r4, Of(E, "ren"))
       r6 == IF Of(E, "length") # {} THEN DoLength(r5) ELSE r5
-  IN  DoSet(r6, Of(E, "set"))
+  IN  r6
+(* everything but the cut *)
+EditAttrs(r, E) == DoSet(PreSet(r, E), Of(E, "set"))
 
 TheCut(E) == CHOOSE e \in Of(E, "cut") : TRUE
 (* is the record written at all *)
-Survives(r, E) == Of(E, "cut") = {} \/ CutPossible(TheCut(E).n, TheCut(E).m, SLen(r))
+Survives(r, E) == /\ Of(E, "cut") = {} \/ CutPossible(TheCut(E).n, TheCut(E).m, SLen(r))
+                  /\ \A e \in Of(E, "set") : Evaluable(e.re, PreSet(r, E))
 (* the record written (meaningful when Survives) *)
 Edited(r, E) ==
   LET a == EditAttrs(r, E) IN
